@@ -103,6 +103,8 @@ class Oracle:
         if op["k"] == "exec" and out.get("sqlstate") is not None:
             self.flag("sqlstate-attr", f"sqlstate-attr/not-reset/{t}", {"op": op_brief(op), "outcome": out})
             return
+        if op.get("effect_only"):
+            return  # e.g. executemany: fakesnow documents that its response differs from the connector's; the effect is checked on the snapshot
         if pred.get("rows") is not None:
             got = out.get("rows")
             exp = pred["rows"]
@@ -220,7 +222,7 @@ def op_brief(op: dict[str, Any]) -> dict[str, Any]:
 def predict(model: Model, op: dict[str, Any]) -> dict[str, Any]:
     if op["k"] == "connect":
         return model.connect(op["s"], op.get("database"), op.get("schema"))
-    if op["k"] in ("exec", "write_pandas"):
+    if op["k"] in ("exec", "write_pandas", "executemany"):
         if op["s"] not in model.sessions:
             return {"ok": False, "errs": [], "why": "no session"}
         return model.apply(op["s"], op["st"])
